@@ -75,12 +75,24 @@ Reduce(tv, mv) ==                                                 \* tv < R*R gi
       wide == up + meta * R
   IN [z |-> IF wide >= mv THEN (wide - mv) % R ELSE up, meta |-> meta, wide |-> wide]
 
+(* MontyParams::new / new_vartime (monty_form.rs:45-119), BoxedMontyParams::new: the derived constants.      *)
+(* The remainders, the square and the inverse mod 2^W are their specifications here (they are KnuthD, Mul   *)
+(* and Inv); what is checked is the derivation: one = (-m mod R) mod m, r2 = one^2 mod m,                  *)
+(* r3 = montgomery_reduction(r2^2) (whose precondition r2^2 < m*R must hold), the leading-zero clamp,     *)
+(* and the two uses: MontyForm::new(v) = reduction(v * r2), inversion's r3 * (aR)^-1 * R^-1.               *)
+Params(mv) ==
+  LET one == ((R - mv) % R) % mv
+      r2  == (one * one) % mv
+      red == Reduce(r2 * r2, mv)
+  IN [one |-> one, r2 |-> r2, r3 |-> red.z, pre |-> r2 * r2 < mv * R, meta |-> red.meta]
+
 (* ---- exhaustive exploration ------------------------------------------- *)
 VARIABLES x, y, m, out
 Init == /\ m \in {mm \in 1..R - 1 : mm % 2 = 1}
-        /\ x \in 0..R - 1 /\ y \in 0..R - 1 /\ out = <<>>
+        /\ IF Mode = "params" THEN x \in 0..R - 1 /\ y = 0 ELSE x \in 0..R - 1 /\ y \in 0..R - 1
+        /\ out = <<>>
 Next == /\ out = <<>>
-        /\ out' = IF Mode = "amm" THEN Amm(x, y, m) ELSE Reduce(x * y, m)
+        /\ out' = IF Mode = "amm" THEN Amm(x, y, m) ELSE IF Mode = "params" THEN Params(m) ELSE Reduce(x * y, m)
         /\ UNCHANGED <<x, y, m>>
 Spec == Init /\ [][Next]_<<x, y, m, out>>
 Done == out # <<>>
@@ -98,6 +110,13 @@ SquareBigMod  == (Done /\ Mode = "amm" /\ x = y /\ m >= R \div 2) => f(out.z) <=
 (* the source comment's claims 2 and 3 as stated are NOT invariants (see DESIGN); kept for the record *)
 Claim2AsStated == (Done /\ Mode = "amm" /\ y = 1) => f(out.z) = 0
 Claim3AsStated == (Done /\ Mode = "amm" /\ x = y) => f(out.z) <= 1
+
+(* parameters: the constants are R, R^2, R^3 mod m, canonical; converting any x < R in and out is the identity mod m *)
+ParamsOK == (Done /\ Mode = "params") =>
+              /\ out.one = R % m /\ out.r2 = (R * R) % m /\ out.r3 = (((R * R) % m) * R) % m
+              /\ out.one < m /\ out.r2 < m /\ out.r3 < m /\ out.pre
+              /\ LET xm == Reduce(x * out.r2, m).z                          \* MontyForm::new(x, params)
+                 IN xm = (x * R) % m /\ Reduce(xm, m).z = x % m            \* ... and retrieve
 
 (* reduction: for canonical factors the result is the canonical representative *)
 RedCanon == (Done /\ Mode = "reduce" /\ x < m /\ y < m) =>
